@@ -110,6 +110,8 @@ class Report:
 
     def violation(self, key: str, what: str, replay: Dict[str, Any]) -> None:
         """A counterexample that has been replayed and reproduced on the real code."""
+        if any(v["key"] == key for v in self.violations):
+            return
         self.violations.append({"key": key, "what": what, "replay": _jsonable(replay)})
         self.add(key, VIOLATED, 0.0, what, queries=0, kind="replay")
 
